@@ -450,6 +450,19 @@ class TyVal:
         self.ty = ty
         self.order = order if order is not None else [ty]
 
+    def e5_attr(self, a):
+        """typing introspection the registration code may use: `T.__args__` of a union (NoneType as itself)"""
+        from .microeval import Raised
+        if a == "__args__" and self.ty[0] == "union":
+            return tuple(type(None) if m == NONE else TyVal(m) for m in self.order)
+        raise Raised("AttributeError", (a,))
+
+    def __eq__(self, other):
+        return isinstance(other, TyVal) and other.ty == self.ty
+
+    def __hash__(self):
+        return hash(self.ty)
+
 
 class TypingHead:
     def __init__(self, name, to_ty):
